@@ -626,7 +626,7 @@ def prepare_program_for_advanced_sequence_mode(program: Loop, min_seq_len: int, 
             raise TaborException('The algorithm is not smart enough to make sequence tables shorter')
         elif len(program[i]) < min_seq_len:
             assert program[i].repetition_count > 0
-            if program[i].repetition_count == 1:
+            if program[i].repetition_count == 1 and program[i].volatile_repetition is None:
                 # check if merging with neighbour is possible
                 if i > 0 and _check_merge_with_next(program, i - 1, max_seq_len=max_seq_len):
                     pass
